@@ -25,7 +25,7 @@ ASSUMPTIONS = [
 
 def bounds(tier):
     return {"expressions": "quick: representative leaves, their Invert, depth-1 trees; thorough: all leaf configurations (both orientations), one per (kind, option, child class) at depth 1-2",
-            "bases": ["StandardNormal", "StudentT(df=3) (leaves)"], "levels": [0, 1] if tier == "quick" else [0, 1, 2],
+            "bases": ["StandardNormal", "StudentT(df=3) (leaves)"], "families": "10 named families alone and as 2-component mixtures with component separation {1,50,200,1e4} x 2 levels x 2 dtypes", "levels": [0, 1] if tier == "quick" else [0, 1, 2],
             "dtypes": ["float64", "float32 (leaves, Invert(leaf), factories)"], "factories": "8 configs x invert x cond",
             "spline_intervals": "symmetric, asymmetric, not containing 0 (both signs)", "exhaustive_within_bounds": True}
 
@@ -90,8 +90,43 @@ def enumerate_cases(tier, seed):
                 for x64 in (True, False):
                     cases.append({"id": f"{'f64' if x64 else 'f32'}|factory|{f}|invert={int(inv)}|cond={cond}", "factory": f,
                                   "invert": inv, "cond": cond, "x64": x64, "tier": tier, "seed": seed})
+    # "for every distribution": the named families on their own and as mixtures whose components are far apart (a component
+    # with log-density -inf must not poison the gradient of a finite mixture log-density)
+    for fam in FAMILIES:
+        for variant, seps in (("single", [0]), ("mix", [1, 50, 200, 10000])):
+            if fam == "MultivariateNormal" and variant == "mix":
+                continue
+            for sep in seps:
+                for x64 in (True, False):
+                    cases.append({"id": f"{'f64' if x64 else 'f32'}|family|{fam}|{variant}|sep={sep}", "family": fam, "variant": variant, "sep": sep,
+                                  "x64": x64, "tier": tier, "seed": seed})
     cases.sort(key=lambda c: (0 if "factory" in c else 1, -len(c["id"])))
     return cases
+
+
+FAMILIES = ["Normal", "LogNormal", "MultivariateNormal", "Uniform", "Gumbel", "Cauchy", "StudentT", "Laplace", "Exponential", "Logistic"]
+LADDER = [-1e4, -200.0, -50.0, -3.0, -1e-30, 0.0, 1e-30, 0.5, 1.0, 3.0, 50.0, 200.0, 1e4]
+
+
+def build_family(fam, variant, sep):
+    import equinox as eqx
+    import jax.numpy as jnp
+
+    import flowjax.distributions as D
+
+    if variant == "single":
+        a, b = jnp.asarray(0.3), jnp.asarray(1.7)
+        return {"Normal": lambda: D.Normal(a, b), "LogNormal": lambda: D.LogNormal(a, b), "Uniform": lambda: D.Uniform(a, a + b),
+                "MultivariateNormal": lambda: D.MultivariateNormal(jnp.asarray([0.3, -1.0]), jnp.asarray([[2.0, 0.6], [0.6, 1.0]])),
+                "Gumbel": lambda: D.Gumbel(a, b), "Cauchy": lambda: D.Cauchy(a, b), "StudentT": lambda: D.StudentT(jnp.asarray(3.0), a, b),
+                "Laplace": lambda: D.Laplace(a, b), "Exponential": lambda: D.Exponential(b), "Logistic": lambda: D.Logistic(a, b)}[fam]()
+    locs, scs = jnp.asarray([0.0, float(sep)]), jnp.asarray([1.0, 0.5])
+    comp = {"Normal": lambda: eqx.filter_vmap(D.Normal)(locs, scs), "LogNormal": lambda: eqx.filter_vmap(D.LogNormal)(jnp.log1p(locs), scs),
+            "Uniform": lambda: eqx.filter_vmap(D.Uniform)(locs, locs + 1 + scs), "Gumbel": lambda: eqx.filter_vmap(D.Gumbel)(locs, scs),
+            "Cauchy": lambda: eqx.filter_vmap(D.Cauchy)(locs, scs), "StudentT": lambda: eqx.filter_vmap(D.StudentT)(jnp.asarray([3.0, 1.5]), locs, scs),
+            "Laplace": lambda: eqx.filter_vmap(D.Laplace)(locs, scs), "Exponential": lambda: eqx.filter_vmap(D.Exponential)(jnp.asarray([1.0, 1.0 + sep])),
+            "Logistic": lambda: eqx.filter_vmap(D.Logistic)(locs, scs)}[fam]()
+    return D.VmapMixture(comp, jnp.asarray([1.0, 2.0]))
 
 
 _FN = {}
@@ -143,7 +178,19 @@ def run_case(case):
     dt = "f64" if dtype == np.float64 else "f32"
     tier, seed = case["tier"], case["seed"]
     levels = [0, 1] if tier == "quick" else [0, 1, 2]
-    if "factory" in case:
+    extra_points = None
+    if "family" in case:
+        from mc.grammar import Info, _full
+        from mc.params import perturb
+
+        shp = (2,) if case["family"] == "MultivariateNormal" else ()
+        ii = Info(shp, None, _full(shp, "R"), _full(shp, "R"), True, True, False, False)
+        cls = f"family:{case['family']}|{case['variant']}|sep={case['sep']}"
+        builder = lambda lvl: perturb(build_family(case["family"], case["variant"], case["sep"]), lvl, seed, scale=0.5)  # noqa: E731
+        sp = float(case["sep"])
+        pts = sorted(set(LADDER + [sp, sp - 1.0, sp + 0.5, sp + 1.5, sp + 2.0, 0.3, 2.0, 1.5]))
+        extra_points = np.asarray(pts, dtype) if shp == () else np.stack([np.asarray(pts, dtype), np.roll(np.asarray(pts, dtype), 3)], axis=1)
+    elif "factory" in case:
         ii = c01.factory_info(case["factory"], case["invert"], case["cond"])
         cls = f"factory:{case['factory']}|invert={int(case['invert'])}"
         builder = lambda lvl: c01.build_factory(case["factory"], case["invert"], case["cond"], seed, lvl)  # noqa: E731
@@ -176,7 +223,7 @@ def run_case(case):
             viols.append({"sig": sig, "msg": msg, "detail": detail})
 
     states = [(lv, 0) for lv in levels]
-    if "factory" not in case and case["base"] == "normal" and bt.np_dtype() == np.float64 and (
+    if "factory" not in case and "family" not in case and case["base"] == "normal" and bt.np_dtype() == np.float64 and (
             case["spec"].get("k") == "RQS" or (case["spec"].get("k") == "Invert" and case["spec"]["c"].get("k") == "RQS")):
         # splines: the unselected branch of the interval test depends on the knot parameters, so several trained states (levels 0-3 x 3 parameter patterns) are tried
         states = [(lv, sd) for lv in (0, 1, 2, 3) for sd in range(3 if lv else 1)]
@@ -191,6 +238,8 @@ def run_case(case):
         consts = bt.boundary_constants(dist)
         codes = np.full(ii.shape, "R")
         X = bt.input_batch(codes, consts, dtype)
+        if extra_points is not None:
+            X = np.concatenate([X, extra_points.reshape((-1, *ii.shape))], axis=0)
         params, _ = eqx.partition(dist, eqx.is_inexact_array, is_leaf=lambda l: isinstance(l, wrappers.NonTrainable))
         pnames = [jax.tree_util.keystr(p) for p, _ in jax.tree_util.tree_leaves_with_path(params)]
         for ci, c in enumerate(bt.conditions(ii.cond_shape, dtype, 2)):
